@@ -74,6 +74,45 @@ func TestProp_Generated(t *testing.T) {
 	})
 }
 
+func TestProp_Flat(t *testing.T) {
+	ev.Describe("flat", "a small generated program wrapped in a block and repeated 999-3000 times on consecutive lines, under every Options value; oracle: the round trip as above (the printed text of a long flat program spells things differently from the source, e.g. parenthesised arrow parameters: state that accumulates per printed construct shows only here); non-trivial = >= 1000 repetitions")
+	ev.Check(t, 30, func(t *rapid.T) {
+		o := js.Options{WhileToFor: rapid.Bool().Draw(t, "whileToFor"), Inline: rapid.Bool().Draw(t, "inline")}
+		g := jsgen.New(t)
+		g.WhileToFor = o.WhileToFor
+		g.MaxDepth = rapid.IntRange(1, 3).Draw(t, "maxDepth")
+		prog := g.Program()
+		toks := append(append([]jsgen.Tok{{S: "{"}}, prog.Toks...), jsgen.Tok{S: "}"})
+		one, _ := jsgen.Render(t, toks, rapid.Bool().Draw(t, "dense"))
+		k := rapid.SampledFrom([]int{999, 1000, 1001, 1100, 1500, 2000}).Draw(t, "repeat")
+		for k > 999 && k*len(one) > 2<<20 {
+			k = 999 + (k-999)/2
+		}
+		src := strings.Repeat(one+"\n", k)
+		ast, err := js.Parse(parse.NewInputString(src), o)
+		if err != nil {
+			t.Skip("the flat source itself is rejected: C03 decides that")
+		}
+		roundTrip(flatFataler{t, k, one}, "", o, ast)
+		ev.Case("flat", fmt.Sprintf("%d x %s", k, one), k >= 1000, fmt.Sprintf("repeat=%d", k))
+	})
+}
+
+// flatFataler shortens the failure text of a long flat program to its first lines
+type flatFataler struct {
+	t   *rapid.T
+	k   int
+	one string
+}
+
+func (f flatFataler) Fatalf(format string, args ...any) {
+	msg := fmt.Sprintf(format, args...)
+	if len(msg) > 3000 {
+		msg = msg[:1500] + "\n…\n" + msg[len(msg)-1200:]
+	}
+	f.t.Fatalf("%d repetitions of\n%s\n%s", f.k, f.one, msg)
+}
+
 func TestProp_Corpus(t *testing.T) {
 	ev.Describe("corpus", "string literals of the repository's js tests (read from /repo at run time) with 0-3 mutations (truncation, splice, duplication, deletion, fragment insertion, byte flip; invalid UTF-8 replaced) that Parse still accepts, under every Options value; oracle as for generated; non-trivial = accepted program of >= 10 bytes; class accepted/rejected")
 	ev.Check(t, 8000, func(t *rapid.T) {
